@@ -294,6 +294,20 @@ _amend("C17", "text", "For the rule PARSER (ported, its error spans compared wit
 _amend("C13", "text", "Proved over the port of the rule lexer", "The alias lexer (which duplicates the feature table) is ported as well and compared on ~40k lines per run (aliasp-ops). "
        "Proved over the port of the rule lexer")
 
+# ---- session 3, part 3: D30 repaired, lexer + parser total
+_amend("C02", "text", "so a line is parsed, rejected, or hits one of the modelled panic sites (the unreachable!() after an empty term = known finding D30; the index panics are not known "
+       "to be reachable). The former D2 family (18 panics on numbers above usize::MAX) was REPAIRED in the lexers (two fix: commits) and the repair is PROVED for lexer + "
+       "parser on every line (Props/C02Numbers.parseLine_no_number_panic: the lexer hands over only Number tokens below 2^64, Lex.lexLine_numbers_fit, and the parser only "
+       "parses the digits of the token under its cursor).",
+       "and NONE of the parser's panic sites is reachable: lexer + parser are TOTAL - on EVERY line Parser::parse after Lexer::get_line returns a rule or a RuleSyntaxError "
+       "(Props/C02Numbers.parse_no_panic / parseLine_returns: the token invariant of Lemmas/ParseSpans - tokens are those of the lexer, numbers fit usize, feature and "
+       "diacritic tokens carry table indices, the cursor stays inside the list - rules out every index, unwrap, parse and unreachable!() site of parser.rs, each of which is "
+       "modelled as an explicit `panic` outcome). Two families of genuine panics were found on the way and REPAIRED: D2 (18 panics on numbers above usize::MAX; two fix: "
+       "commits in the lexers) and D30 (`t,,ʰ`: a diacritic after an empty term reached unreachable!(); fix: eb24cff) - the theorem is about the repaired code and would not "
+       "close without either repair.")
+_amend("C02", "note", "absence of the parser's INDEX panics is not proved;", "no panic site of the rule parser is reachable (theorem);")
+_amend("C02", "technique", "rule and alias parsers terminate on every token list; no number-parse panic)", "rule lexer + parser are total on every line (no panic site reachable); alias parser terminates on every token list)")
+
 
 def main():
     checks = []
